@@ -8,6 +8,7 @@ TSV rows, or 'none' for absent / unphased reads.
 
 import collections
 import os
+from vf.util import vary_name  # noqa: E402
 
 from vf import monitor as M
 from vf.cli import run_cli
@@ -98,7 +99,7 @@ def run_case(ctx, rng, index, casedir):
     mode = rng.choice(["plain", "plain", "bgzf"])
     if mode != "plain":
         sit["bgzf_input"] += 1
-    gaf = os.path.join(casedir, "in.gaf" + ("" if mode == "plain" else ".gz"))
+    gaf = os.path.join(casedir, vary_name(rng, "in.gaf") + ("" if mode == "plain" else ".gz"))
     ggaf.write_gaf(gaf, lines, mode=mode, rng=rng, layout="tiny")
     # haplotag TSV
     rows = []
